@@ -243,6 +243,7 @@ def run(rep: core.Report):
     _r16m(rep)
     _r16o(rep)
     _r16p(rep)
+    _r16r(rep)
     _r16n(rep)
     _r16j(rep)
     from rules import c03
@@ -864,6 +865,61 @@ def _r16n(rep):
                      f"the dumper writes {lost} and the loader stores it {'unchanged' if norm == 'identity' else 'through ' + norm + '()'}; the dispatch compares with {sorted(vocab)} case-sensitively, so a calculation saved with that method reloads with another one", line=st.lineno)
 
 
+def _r16r(rep):
+    """Which primitive matrix phonopy.load() uses for a phonopy.yaml, over what the caller and the file provide."""
+    import itertools
+
+    from engine import pyeval
+
+    LOAD = "phonopy/cui/load.py"
+    rep.rule("R16r", "primitive matrix of phonopy.load(phonopy_yaml=...), evaluated over the finite domain (argument given / not given) x (the file has an entry / has none): an explicit argument wins; otherwise the cell is rebuilt with exactly what the file says -- and a file without an entry (written by an object whose primitive cell is its unit cell) gives none, not a guessed one", 4)
+    fn = core.find_def(LOAD, "load")
+    tree = core.parse(LOAD)
+    ctor = [c for c in ast.walk(fn) if isinstance(c, ast.Call) and core.src(c.func) == "Phonopy" and any(k.arg == "primitive_matrix" for k in c.keywords)]
+    if not ctor:
+        raise AnalysisError("R16r: load() no longer hands primitive_matrix= to the Phonopy constructor")
+    pv = next(k.value for k in ctor[0].keywords if k.arg == "primitive_matrix")
+    if not isinstance(pv, ast.Name):
+        raise AnalysisError("R16r: the primitive matrix handed to Phonopy(...) is not a local name")
+    var = pv.id
+    for arg, filev in itertools.product((None, "F"), (None, "M-of-the-file")):
+        E = pyeval.Evaluator(tree, hooks={"attr:primitive_matrix": filev, "PhonopyYaml": lambda *a, **k: pyeval.Opaque("PhonopyYaml")}, where="load")
+        # bind the parameters, then run the statements up to the end of the branch chain that binds the variable
+        env = {}
+        params = fn.args.posonlyargs + fn.args.args
+        defaults = [None] * (len(params) - len(fn.args.defaults)) + list(fn.args.defaults)
+        for p_, d_ in zip(params, defaults):
+            env[p_.arg] = E.ev(d_, {}) if d_ is not None else None
+        for p_, d_ in zip(fn.args.kwonlyargs, fn.args.kw_defaults):
+            env[p_.arg] = E.ev(d_, {}) if d_ is not None else None
+        if "phonopy_yaml" not in env or "primitive_matrix" not in env:
+            raise AnalysisError("R16r: load() lost its parameters phonopy_yaml / primitive_matrix")
+        env["phonopy_yaml"] = "file.yaml"
+        env["primitive_matrix"] = arg
+        done = False
+        try:
+            for st in fn.body:
+                E.block([st], env)
+                if isinstance(st, ast.If) and var in env:
+                    done = True
+                    break
+        except pyeval.Unknown as ex:
+            raise AnalysisError(f"R16r: load() cannot be evaluated over the sources of the primitive matrix ({ex})")
+        except pyeval.Raised as ex:
+            raise AnalysisError(f"R16r: load() raises {ex} for a phonopy.yaml file name")
+        if not done:
+            raise AnalysisError(f"R16r: '{var}' is not bound by the branch chain of load()")
+        got = env[var]
+        if arg is not None:
+            ok = isinstance(got, pyeval.Opaque) and got.name == "get_primitive_matrix" and got.args and got.args[0] == arg
+            want = f"get_primitive_matrix('{arg}', ...)"
+        else:
+            ok = got == filev
+            want = repr(filev)
+        rep.instance("R16r", LOAD, "load", f"argument {arg!r}, file entry {filev!r} -> {got!r}", ok,
+                     f"with primitive_matrix={arg!r} passed to load() and {'no primitive_matrix entry' if filev is None else 'a primitive_matrix entry'} in the phonopy.yaml, the Phonopy object is built with {got!r} instead of {want}: the reloaded primitive cell (and everything stored per primitive atom: Born charges, compact force constants) is not the one that was saved", line=fn.lineno)
+
+
 def _r16p(rep):
     """Which force constants phonopy.load() takes, evaluated over every combination of what is available."""
     import itertools
@@ -1157,6 +1213,8 @@ def selftest():
     YML_ = "phonopy/interface/phonopy_yaml.py"
     b("dataset section only under the displacements setting", YML_, "        lines = []\n        if (\n            self._dumper_settings[\"force_sets\"]\n            or self._dumper_settings[\"displacements\"]\n        ):\n            disp_yaml_lines = self._displacements_yaml_lines(\n                with_forces=self._dumper_settings[\"force_sets\"]\n            )\n            lines += disp_yaml_lines\n        return lines\n", "        if not self._dumper_settings[\"displacements\"]:\n            return []\n        return self._displacements_yaml_lines(\n            with_forces=self._dumper_settings[\"force_sets\"]\n        )\n", "R16l", "_dataset_yaml_lines")
     n("dataset section with early return on both settings off", YML_, "        lines = []\n        if (\n            self._dumper_settings[\"force_sets\"]\n            or self._dumper_settings[\"displacements\"]\n        ):\n            disp_yaml_lines = self._displacements_yaml_lines(\n                with_forces=self._dumper_settings[\"force_sets\"]\n            )\n            lines += disp_yaml_lines\n        return lines\n", "        with_forces = self._dumper_settings[\"force_sets\"]\n        if not (with_forces or self._dumper_settings[\"displacements\"]):\n            return []\n        return self._displacements_yaml_lines(with_forces=with_forces)\n")
+    b("load(): file without a primitive matrix falls through to the automatic guess", "phonopy/cui/load.py", "        else:\n            pmat = phpy_yaml.primitive_matrix\n", "        elif phpy_yaml.primitive_matrix is not None:\n            pmat = phpy_yaml.primitive_matrix\n        else:\n            pmat = get_primitive_matrix(\"auto\", symprec=symprec)\n", "R16r", "load")
+    n("load(): primitive matrix chosen with the arms exchanged", "phonopy/cui/load.py", "        if primitive_matrix is not None:\n            pmat = get_primitive_matrix(primitive_matrix, symprec=symprec)\n        else:\n            pmat = phpy_yaml.primitive_matrix\n", "        if primitive_matrix is None:\n            pmat = phpy_yaml.primitive_matrix\n        else:\n            pmat = get_primitive_matrix(primitive_matrix, symprec=symprec)\n")
     b("magnetic moment read under a truthiness test", ATOMS, '            if "magnetic_moment" in x:\n                magnetic_moments.append(x["magnetic_moment"])', '            if x.get("magnetic_moment"):\n                magnetic_moments.append(x["magnetic_moment"])', "R16q", "magnetic_moment")
     n("magnetic moment read under a None test", ATOMS, '            if "magnetic_moment" in x:\n                magnetic_moments.append(x["magnetic_moment"])', '            if x.get("magnetic_moment") is not None:\n                magnetic_moments.append(x["magnetic_moment"])')
     b("dumper renames dielectric key", YML, 'lines.append("  dielectric_constant:")', 'lines.append("  dielectric_tensor:")', "R16a", "dielectric_constant")
